@@ -64,8 +64,25 @@ pub fn exercise(bytes: &[u8], r: &mut Report, rp: &dyn Fn() -> Json, label: &str
         }
         Ok(ok) => ok,
     };
+    // in-situ decoder accounting during the real parse (H2): no request is entered beyond the buffer,
+    // and under a limit of n words set at offset o never more than n words have been consumed while
+    // the remaining limit never exceeds n minus the words consumed
+    let mut window: Option<(usize, usize)> = None;
     for e in &ev {
-        if let verif::Event::Dec { offset, len, req, .. } = e {
+        if let verif::Event::Dec { offset, len, req, limit } = e {
+            match req {
+                verif::DecReq::SetLimit(n) => window = Some((*offset, *n)),
+                verif::DecReq::ClearLimit => window = None,
+                _ => {
+                    if let (Some((o, n)), Some(l)) = (window, limit) {
+                        let used = offset.saturating_sub(o) / 4;
+                        if used > n || l + used > n {
+                            r.violation("C04:limit-accounting".to_string(), format!("decoder request {:?} entered at offset {} with {} word(s) of limit left; the limit of {} words was set at offset {}\ninput ({}): {}", req, offset, l, n, o, label, hex_bytes(&b[..b.len().min(300)])), rp().set("binary", hex_bytes(b)));
+                            return false;
+                        }
+                    }
+                }
+            }
             if offset > len {
                 r.violation("C04:read-beyond-buffer".to_string(), format!("decoder request {:?} entered at offset {} of a {}-byte buffer\ninput ({}): {}", req, offset, len, label, hex_bytes(&b[..b.len().min(300)])), rp().set("binary", hex_bytes(b)));
                 return false;
